@@ -527,6 +527,10 @@ def make_tasks(env: Env, broker: ScriptedBroker, cfg: Dict[str, Any]) -> None:
     async def tlate(i: int, v: Any = None, w: int = 0) -> Any:
         return await body_async(i, 0, v, w)
     env.late_task = tlate
+    if cfg.get("late_sync_first"):
+        def tlate_sync(i: int, v: Any = None, w: int = 0) -> Any:
+            return body_sync(i, 0, v, w)
+        broker.register_task(tlate_sync, task_name="tlate")
     if not cfg.get("synconly"):
         broker.register_task(ta0, task_name="ta0")
     broker.register_task(ts0, task_name="ts0")
@@ -701,6 +705,9 @@ def run(scn: Dict[str, Any]) -> List[Dict[str, Any]]:
         class ObservedReceiver(Receiver):
             """Records begin/end of the processing of each message (public callback API)."""
 
+            def __init__(self, *args: Any, **kwargs: Any) -> None:      # the usual pass-through constructor of a custom receiver
+                super().__init__(*args, **kwargs)
+
             async def callback(self, message: Any, raise_err: bool = False) -> None:  # type: ignore[override]
                 m = index_of.get(id(message), 0)
                 CUR_M.set(m)
@@ -857,8 +864,8 @@ def _play(scn: Dict[str, Any], loop: VLoop, env: Env, broker: "ScriptedBroker", 
                     broker._wake.set_result(None)
                 loop.settle()
             elif op == "register":
-                if broker.find_task("tlate") is None:
-                    broker.register_task(env.late_task, task_name="tlate")
+                # (re-)registration while the worker runs; a name that was served by a plain function before is now a coroutine
+                broker.register_task(env.late_task, task_name="tlate")
                 env.rec("noop", s="register")
             elif op == "settle":
                 loop.settle()
